@@ -222,6 +222,34 @@ func c07Parse(c *fw.Case, st *sut.Stack, ns string, typ byte, s *opStep, expect 
 		st.Parser.GetRevealValue(s.Built.Request)
 		st.Parser.GetCommitment(s.Built.Request)
 	}
+	if typ == 'c' && rule == "valid" && c.Rng.Bool() {
+		// a twin of the create seen first by the same parser: same delta, same recovery commitment, another anchor origin / type (or
+		// none) in the suffix data - another request, reported with its own suffix
+		tw := *s.Spec
+		pick := c.Rng.Intn(4)
+		tw.SuffixDataEdit = func(sd map[string]interface{}) {
+			switch pick {
+			case 0:
+				sd["anchorOrigin"] = "https://twin.example/" + fmt.Sprint(c.Rng.Intn(100))
+			case 1:
+				delete(sd, "anchorOrigin")
+				sd["type"] = "tw" + fmt.Sprint(c.Rng.Intn(100))
+			case 2:
+				sd["anchorOrigin"] = map[string]interface{}{"twin": true}
+			default:
+				delete(sd, "anchorOrigin")
+				delete(sd, "type")
+			}
+		}
+		tb := tw.Build(c.Rng)
+		c.Count("twin-creates", 1)
+		if top, terr := st.Parser.Parse(ns, tb.Request); terr == nil {
+			if want := oracle.MustModelHash(uint64(st.P.MultihashAlgorithms[0]), tb.SuffixData); top.UniqueSuffix != want || top.ID != ns+":"+want {
+				c.Failf("operation-misreported", map[string]interface{}{"request": string(tb.Request), "got_suffix": top.UniqueSuffix, "got_id": top.ID, "expected_suffix": want}, "accepted create is reported with a suffix that is not the hash of its suffix data")
+				return
+			}
+		}
+	}
 	op, err := st.Parser.Parse(ns, s.Built.Request)
 	w := map[string]interface{}{"request": string(s.Built.Request), "type": typeName(typ), "rule": rule, "expected_accept": expect, "err": fmt.Sprint(err), "parsed_in_batch_mode_first": sandwich}
 	if _, err2 := st.Parser.Parse(ns, s.Built.Request); (err2 == nil) != (err == nil) {
